@@ -4198,10 +4198,16 @@ def tie_notes(part):
 
     """
     # split and tie notes at measure boundaries
+    used_ids = set(
+        n.id for n in part.iter_all(GenericNote, include_subclasses=True)
+    )
     for note in list(part.iter_all(Note)):
         next_measure = next(note.start.iter_next(Measure), None)
         cur_note = note
         note_end = cur_note.end
+        # a tie the note already has (e.g. to the next component of a
+        # composite duration) is handed on to the last of the new notes
+        old_tie_next = note.tie_next
 
         # keep the list of stopping slurs, we need to transfer them to the last
         # tied note
@@ -4219,6 +4225,9 @@ def tie_notes(part):
             )
             if cur_note.id is not None:
                 note_id = _make_tied_note_id(cur_note.id)
+                while note_id is not None and note_id in used_ids:
+                    note_id = _make_tied_note_id(note_id)
+                used_ids.add(note_id)
             else:
                 note_id = None
             if isinstance(cur_note, UnpitchedNote):
@@ -4252,6 +4261,9 @@ def tie_notes(part):
         if cur_note != note:
             for slur in slur_stops:
                 slur.end_note = cur_note
+            if old_tie_next is not None:
+                cur_note.tie_next = old_tie_next
+                old_tie_next.tie_prev = cur_note
 
     # then split/tie any notes that do not have a fractional/dot duration
     divs_map = part.quarter_duration_map
